@@ -129,4 +129,7 @@ Definition run (name : string) (a : sx) : sx :=
   else if is "c16.lib" then H16.run_lib a
   else if is "c01.hist" then H01h.run_hist a
   else if is "c02.parsed" then H02.run_parsed a
+  else if is "c05.dec" then H05.run_dec a
+  else if is "c08.mapint" then H08.run_mapint a
+  else if is "c19.genpayload" then H19.run_genpayload a
   else sx_err "unknown case kind".
